@@ -93,10 +93,14 @@ static double absoluteOffsetInverse(double offset,
 void ShapeRef::transformConnectionPinPositions(
         ShapeTransformationType transform)
 {
-    for (ShapeConnectionPinSet::iterator curr = 
-            m_connection_pins.begin(); curr != m_connection_pins.end(); ++curr)
+    // The pin set is ordered by the pins' offsets and directions, which are
+    // rewritten below: take the pins out of the set while they change.
+    std::vector<ShapeConnectionPin *> pins(m_connection_pins.begin(),
+            m_connection_pins.end());
+    m_connection_pins.clear();
+    for (size_t pinIndex = 0; pinIndex < pins.size(); ++pinIndex)
     {
-        ShapeConnectionPin *pin = *curr;
+        ShapeConnectionPin *pin = pins[pinIndex];
         double usingProportionalOffsets = pin->m_using_proportional_offsets;
         double& xOffset = pin->m_x_offset;
         double& yOffset = pin->m_y_offset;
@@ -219,6 +223,11 @@ void ShapeRef::transformConnectionPinPositions(
             if (visInDir[(rotationN + dirD) % 4])  visDirs |= ConnDirDown;
             if (visInDir[(rotationN + dirL) % 4])  visDirs |= ConnDirLeft;
         }
+    }
+    m_connection_pins.insert(pins.begin(), pins.end());
+    for (size_t pinIndex = 0; pinIndex < pins.size(); ++pinIndex)
+    {
+        ShapeConnectionPin *pin = pins[pinIndex];
         pin->updatePositionAndVisibility();
         m_router->modifyConnectionPin(pin);
     }
